@@ -103,3 +103,382 @@ def r1_3(ctx):
             ctx.ob("is_check_cords:king-class:enemy-field:%s" % fields[0], ok, b.where(loc),
                    "reads %s's king square where the defender colour may be %s; it must be read only when the defender is the other colour" % (owner, sorted(poss)))
     ctx.floor("king square reads", nreads, 2)
+
+
+# ---- C06: R6.1 is_check, R6.2 attack tables, R6.3 ray walk, R6.4 king adjacency (finite instantiation)
+from wa.expr import subexprs, root_local
+from wa.cond import dominating_facts
+from wa.interp import eval_expr, walk, Unknown
+from wa.mir import callee_of, operand_alias
+from . import chess
+
+IS_CHECK = "move_generation::is_check"
+SQ_EQ = "<board::Square as std::cmp::PartialEq<board::Piece>>::eq"
+
+
+def r6_1(ctx):
+    """is_check(board, c) probes c's own cached king square with colour c."""
+    f = ctx.facts
+    b = f.body(IS_CHECK)
+    ctx.note_fn(IS_CHECK)
+    ex = Exprs(b)
+    colours = f.enum_variant_by_discr("board::PieceColor")
+    cp = [i for i in range(1, b.arg_count + 1) if b.local_ty(i) == "board::PieceColor"][0]
+    bp = [i for i in range(1, b.arg_count + 1) if b.local_ty(i) == "&board::BoardState"][0]
+    seen = set()
+    for bb, t in b.iter_calls(callee=ICC):
+        args = ex.call_args(bb)
+        poss = enum_value_on_trace(b, ex, bb, ("arg", cp), colours)
+        ca = strip_refs(args[1])
+        sq = strip_refs(args[2])
+        cname = ca[2] if ca[0] == "agg" else (next(iter(poss)) if ca == ("arg", cp) and len(poss) == 1 else None)
+        ok = len(poss) == 1 and cname == next(iter(poss)) and sq[0] == "field" and sq[2] == "%s_king_location" % cname.lower() and strip_refs(sq[1]) == ("arg", bp) \
+            and strip_refs(args[0]) == ("arg", bp)
+        if ok:
+            seen.add(cname)
+        ctx.ob("is_check:%s" % (sorted(poss)[0] if len(poss) == 1 else "?"), ok, b.where(b.term_loc(bb)),
+               "on the trace colour=%s: is_check_cords(board, %s, %s); must probe that colour's own king square" % (sorted(poss), show_expr(ca, b), show_expr(sq, b)))
+    ctx.ob("is_check:both-colours", seen == {"White", "Black"}, b.file, "colours handled: %s" % sorted(seen))
+
+
+def table_loops(b, ex):
+    """Outer loops iterating a constant table of (i8, i8) offsets: {header: (loop blocks, offsets, item expr)}."""
+    out = {}
+    loops = b.loops()
+    for h, body_ in loops.items():
+        for x in body_:
+            if b.term(x)["k"] != "switch":
+                continue
+            d = ex.switch_discr(x)
+            if d[0] == "discr" and d[1][0] == "call" and d[1][1].endswith("::next"):
+                tab = None
+                for y in data_slice(ex, strip_refs(d[1][2][0])):
+                    if y[0] == "agg" and y[1] == "array" and y[3] and all(z[0] == "agg" and z[1] == "tuple" and len(z[3]) == 2 for z in y[3]):
+                        tab = {(z[3][0][1], z[3][1][1]) for z in y[3]}
+                if tab is not None and not any(body_ < loops[o] and o in out for o in loops):
+                    out[h] = (body_, tab, ("field", ("downcast", d[1], "Some"), "0"))
+    return out
+
+
+def _piece_tests(b, ex, blocks):
+    """[(bb, kind name, colour expr, square expr)] of `square == Piece::kind(colour)` tests in blocks."""
+    res = []
+    for s in sorted(blocks):
+        if b.term(s)["k"] != "switch":
+            continue
+        d = ex.switch_discr(s)
+        if d[0] == "call" and d[1] == SQ_EQ:
+            p = strip_refs(d[2][1])
+            if p[0] == "call" and p[1] in PIECE_CTORS:
+                res.append((s, PIECE_CTORS[p[1]], strip_refs(p[2][0]), strip_refs(d[2][0])))
+    return res
+
+
+def r6_2(ctx):
+    """Per attack class: direction/offset table, attacker kinds, attacker colour, pawn rows."""
+    f = ctx.facts
+    b = f.body(ICC)
+    ctx.note_fn(ICC)
+    ex = Exprs(b)
+    board, color, sq = _params(b)
+    want = [("orthogonal", chess.ROOK_DIRS, {"rook", "queen"}), ("diagonal", chess.BISHOP_DIRS, {"bishop", "queen"}), ("knight", chess.KNIGHT_OFFSETS, {"knight"})]
+    tl = table_loops(b, ex)
+    loops = b.loops()
+    found = {}
+    for h, (body_, tab, item) in tl.items():
+        inner = set()
+        for h2, b2 in loops.items():
+            if b2 < body_:
+                inner |= b2
+        tests = _piece_tests(b, ex, body_ - inner)
+        kinds = {k for _, k, _, _ in tests}
+        name = next((n for n, t, ks in want if t == tab), None)
+        found[name or "table@%d" % h] = (h, tab, kinds, tests)
+    opp = ("call", "board::PieceColor::opposite", (("arg", color),), None)
+    for name, tab, ks in want:
+        if name not in found:
+            ctx.ob("is_check_cords:%s:table" % name, False, b.file, "no loop over the %s offset table %s" % (name, sorted(tab)))
+            continue
+        h, t, kinds, tests = found[name]
+        ctx.ob("is_check_cords:%s:attackers" % name, kinds == ks, b.where(b.term_loc(h)),
+               "squares reached along %s offsets are compared with %s; the rules say %s" % (name, sorted(kinds), sorted(ks)))
+        for s, k, c, sqe in tests:
+            ctx.ob("is_check_cords:%s:%s:enemy-colour" % (name, k), c == opp, b.where(b.term_loc(s)), "attacker colour is `%s`; must be the opposite of the defender" % show_expr(c, b))
+    extra = [n for n in found if n.startswith("table@")]
+    for n in extra:
+        h, t, kinds, tests = found[n]
+        ctx.ob("is_check_cords:unknown-offset-table@%s" % sorted(t)[:2], False, b.where(b.term_loc(h)),
+               "loop over offsets %s (compared with %s) is none of rook/bishop/knight movement" % (sorted(t), sorted(kinds)))
+    # pawns: attacked from the two forward diagonals as seen from the attacker
+    colours = f.enum_variant_by_discr("board::PieceColor")
+    allb = set(b.normal)
+    inloops = set()
+    for h2, b2 in loops.items():
+        inloops |= b2
+    ptests = [t for t in _piece_tests(b, ex, allb - inloops) if t[1] == "pawn"]
+    cols = set()
+    sqp = ("arg", sq)
+    for s, k, c, sqe in ptests:
+        ctx.ob("is_check_cords:pawn:enemy-colour#%d" % (len(cols) + 1), c == opp, b.where(b.term_loc(s)), "attacker colour `%s`" % show_expr(c, b))
+        if sqe[0] == "index" and sqe[1][0] == "index":
+            r_e, c_e = sqe[1][2], sqe[2]
+            lc = linear(c_e)
+            if lc and lc[0] == {("field", sqp, "1"): 1}:
+                cols.add(lc[1])
+            # row: a variable defined per colour trace
+            rdefs = []
+            if r_e[0] == "var":
+                for dloc, kind in r_e[2]:
+                    if kind != "whole":
+                        continue
+                    e = ex.rvalue(b.stmts(dloc[0])[dloc[1]]["rv"], dloc)
+                    poss = enum_value_on_trace(b, ex, dloc[0], ("arg", color), colours)
+                    rdefs.append((poss, linear(e), dloc))
+            okr = len(rdefs) == 2
+            for poss, le, dloc in rdefs:
+                if len(poss) != 1 or le is None or le[0] != {("field", sqp, "0"): 1}:
+                    okr = False
+                    continue
+                defender = next(iter(poss))
+                # a White defender is attacked by black pawns standing one row closer to rank 8 (row - 1)
+                okr = okr and le[1] == chess.PAWN[defender]["dir"]
+            ctx.ob("is_check_cords:pawn:row#%d" % len(cols), okr, b.where(b.term_loc(s)),
+                   "pawn attackers are looked for one row ahead of the defender (White: row-1, Black: row+1): %s" % [(sorted(p), l[1] if l else None) for p, l, _ in rdefs])
+    ctx.ob("is_check_cords:pawn:both-diagonals", cols == {-1, 1}, b.file, "pawn attack columns relative to the square: %s" % sorted(cols))
+
+
+from wa.linear import linear
+
+
+def r6_3(ctx):
+    """Ray walk shape: each slider ray advances by the direction while the square just loaded is
+    empty, and the square compared with the attackers is the one the walk stopped on."""
+    f = ctx.facts
+    b = f.body(ICC)
+    ex = Exprs(b)
+    board, color, sq = _params(b)
+    tl = table_loops(b, ex)
+    loops = b.loops()
+    n = 0
+    for h, (body_, tab, item) in sorted(tl.items()):
+        inner = [(h2, b2) for h2, b2 in loops.items() if b2 < body_]
+        is_slider = tab in (chess.ROOK_DIRS, chess.BISHOP_DIRS)
+        if not is_slider:
+            # knight-like: one probe per offset, no walk
+            ctx.ob("is_check_cords:offsets@%d:single-probe" % len(tab), not inner, b.where(b.term_loc(h)), "%d-offset table is probed once per offset (no walk)" % len(tab))
+            tests = _piece_tests(b, ex, body_)
+            for s, k, c, sqe in tests:
+                ok = False
+                if sqe[0] == "index" and sqe[1][0] == "index":
+                    lr, lc = linear(sqe[1][2]), linear(sqe[2])
+                    want_r = {("field", ("arg", sq), "0"): 1, ("deref", ("field", ("deref", item), "0")): 1}
+                    want_c = {("field", ("arg", sq), "1"): 1, ("deref", ("field", ("deref", item), "1")): 1}
+                    ok = lr is not None and lc is not None and lr[1] == 0 and lc[1] == 0 and _same_terms(lr[0], want_r) and _same_terms(lc[0], want_c)
+                ctx.ob("is_check_cords:%s:probe-square" % k, ok, b.where(b.term_loc(s)), "probes board[square.0 + dr][square.1 + dc]: `%s`" % show_expr(sqe, b)[:110])
+            continue
+        n += 1
+        name = "orthogonal" if tab == chess.ROOK_DIRS else "diagonal"
+        if len(inner) != 1:
+            ctx.ob("is_check_cords:%s:ray-walk" % name, False, b.where(b.term_loc(h)), "expected one inner walking loop, found %d" % len(inner), reason="shape-not-recognised")
+            continue
+        h2, b2 = inner[0]
+        # loop condition: is_empty(square var)
+        cond = None
+        for x in b2:
+            if b.term(x)["k"] == "switch":
+                d = ex.switch_discr(x)
+                if d[0] == "call" and d[1] == "board::Square::is_empty":
+                    cond = (x, strip_refs(d[2][0]))
+        if cond is None or cond[1][0] != "var":
+            ctx.ob("is_check_cords:%s:ray-walk" % name, False, b.where(b.term_loc(h2)), "the walk does not continue on `square.is_empty()`", reason="rule-breach")
+            continue
+        sqv = cond[1][1]
+        t = b.term(cond[0])
+        cont = t["otherwise"]
+        ok_cont = cont in b2 and all(tg not in b2 for v, tg in t["cases"] if v == 0)
+        # in the loop: two add_assign on two locals with the direction components, then reload of square
+        steps = []
+        for x in b2:
+            tt = b.term(x)
+            if tt["k"] == "call" and (callee_of(tt) or "").endswith("AddAssign<&i8>>::add_assign"):
+                al = operand_alias(b, tt["args"][0])
+                comp = strip_refs(ex.call_args(x)[1])
+                steps.append((al[0] if al else None, comp))
+        comps = {_strip_cd(c) for _, c in steps}
+        want = {_strip_cd(("field", ("deref", item), "0")), _strip_cd(("field", ("deref", item), "1"))}
+        # reload
+        reloads = [(loc, k) for loc, k in b.reaching().all_sites(sqv) if loc[0] in b2]
+        ok_reload = False
+        rowl = coll = None
+        if len(reloads) == 1:
+            loc = reloads[0][0]
+            e = ex.rvalue(b.stmts(loc[0])[loc[1]]["rv"], loc)
+            if e[0] == "index" and e[1][0] == "index":
+                rowl, coll = _root(e[1][2]), _root(e[2])
+                stepped = {l for l, _ in steps}
+                after = all(b.node_dominates(x, loc[0]) for x in b2 if b.term(x)["k"] == "call" and (callee_of(b.term(x)) or "").endswith("add_assign"))
+                ok_reload = {rowl, coll} == stepped and after and strip_refs(e[1][1])[0] == "field" and strip_refs(e[1][1])[2] == "board"
+        # row stepped with component 0, col with component 1
+        ok_comp = False
+        if rowl is not None:
+            m = {l: c for l, c in steps}
+            ok_comp = _strip_cd(m.get(rowl) or ("x", "x")) == _strip_cd(("field", ("deref", item), "0")) and \
+                _strip_cd(m.get(coll) or ("x", "x")) == _strip_cd(("field", ("deref", item), "1"))
+        # initial position: square + direction
+        inits = [(loc, k) for loc, k in b.reaching().all_sites(sqv) if loc[0] in body_ and loc[0] not in b2]
+        ok_init = False
+        if len(inits) == 1:
+            loc = inits[0][0]
+            e = ex.rvalue(b.stmts(loc[0])[loc[1]]["rv"], loc)
+            if e[0] == "index" and e[1][0] == "index":
+                lr, lc = linear(e[1][2]), linear(e[2])
+                want_r = {("field", ("arg", sq), "0"): 1, ("field", ("deref", item), "0"): 1}
+                want_c = {("field", ("arg", sq), "1"): 1, ("field", ("deref", item), "1"): 1}
+                ok_init = (lr is not None and lc is not None and lr[1] == 0 and lc[1] == 0 and _same_terms(lr[0], want_r) and _same_terms(lc[0], want_c)) or \
+                    (_root(e[1][2]) == rowl and _root(e[2]) == coll and rowl is not None)
+        # the attackers are compared with that same variable
+        tests = _piece_tests(b, ex, body_ - b2)
+        ok_cmp = bool(tests) and all(sqe[0] == "var" and sqe[1] == sqv for _, _, _, sqe in tests)
+        ok = ok_cont and comps == want and len(steps) == 2 and ok_reload and ok_comp and ok_init and ok_cmp
+        ctx.ob("is_check_cords:%s:ray-walk" % name, ok, b.where(b.term_loc(h2)),
+               "walk continues only on empty squares: %s; steps by (dr, dc) once each: %s; reloads board[row][col] after stepping: %s; row<-dr, col<-dc: %s; starts one step from the square: %s; compares the square it stopped on: %s" % (
+                   ok_cont, comps == want and len(steps) == 2, ok_reload, ok_comp, ok_init, ok_cmp))
+    ctx.floor("slider ray loops", n, 2)
+
+
+def _strip_cd(e):
+    while e[0] in ("cast", "deref", "ref"):
+        e = e[2] if e[0] == "cast" else e[1]
+    return e
+
+
+def _same_terms(got, want):
+    """Compare linear-form term dicts modulo cast / deref wrappers."""
+    g = {_strip_cd(k): v for k, v in got.items()}
+    w = {_strip_cd(k): v for k, v in want.items()}
+    return g == w
+
+
+def _root(e):
+    return root_local(_strip_cd(e))
+
+
+def r6_4(ctx):
+    """King class by finite instantiation: for every pair (enemy king square, probed square) on the
+    board the king-class decision equals 'Chebyshev distance <= 1'."""
+    f = ctx.facts
+    b = f.body(ICC)
+    ex = Exprs(b)
+    board, color, sq = _params(b)
+    ds = [(loc, e) for loc, e in deciders(b, ex) if any(x[0] == "field" and x[2] in KING_FIELDS for x in data_slice(ex, e))]
+    if not ds:
+        ctx.ob("is_check_cords:king-class:distance", False, b.file, "no king-class decision found")
+        return
+    # leaves: the two coordinates of the enemy king and of the probed square
+    from .uci_rules import leaf_terms
+    leaves = set()
+    for loc, e in ds:
+        for x in leaf_terms(e):
+            while x[0] == "call" and (x[1].endswith("::abs") or x[1].endswith("::abs_diff")):
+                ys = []
+                for a in x[2]:
+                    ys += list(leaf_terms(a))
+                if len(ys) == 1:
+                    x = ys[0]
+                else:
+                    for y in ys:
+                        leaves.add(y)
+                    x = None
+                    break
+            if x is not None:
+                leaves.add(x)
+    ksq = [x for x in leaves if root_local(x) != sq]
+    psq = [x for x in leaves if root_local(x) == sq]
+    def coord(x):
+        return x[2] if x[0] == "field" else None
+    if sorted(map(coord, ksq)) != ["0", "1"] or sorted(map(coord, psq)) != ["0", "1"]:
+        raise ShapeNotRecognised("king-class decision is not a function of (king.0, king.1, square.0, square.1): %s" % [show_expr(x, b) for x in leaves])
+    k0 = next(x for x in ksq if coord(x) == "0")
+    k1 = next(x for x in ksq if coord(x) == "1")
+    p0 = next(x for x in psq if coord(x) == "0")
+    p1 = next(x for x in psq if coord(x) == "1")
+    start = min((loc[0] for loc, _ in ds), key=lambda bb: len([x for x in b.normal if b.node_dominates(x, bb)]))
+    bad = []
+    n = 0
+    for kr in range(2, 10):
+        for kc in range(2, 10):
+            for pr in range(2, 10):
+                for pc in range(2, 10):
+                    if (kr, kc) == (pr, pc):
+                        continue
+                    env = {k0: kr, k1: kc, p0: pr, p1: pc}
+                    try:
+                        rb, path = walk(b, ex, env, start_bb=start)
+                    except Unknown as e:
+                        raise ShapeNotRecognised("cannot evaluate king-class decision: %r" % (e,))
+                    val = None
+                    for pb in path:
+                        for i, st in enumerate(b.stmts(pb)):
+                            if st["k"] == "assign" and st["place"]["local"] == 0 and not st["place"]["proj"]:
+                                val = eval_expr(ex.rvalue(st["rv"], (pb, i)), env)
+                    want = max(abs(kr - pr), abs(kc - pc)) <= 1
+                    n += 1
+                    if bool(val) != want:
+                        bad.append(((kr, kc), (pr, pc), val))
+    ctx.ob("is_check_cords:king-class:distance", not bad, b.where(ds[0][0]),
+           "evaluated for all %d (enemy king, probed square) pairs: attacked exactly when both coordinates differ by at most one%s" % (
+               n, "" if not bad else "; WRONG for %d pairs, e.g. king %s vs square %s -> %s (%s)" % (
+                   len(bad), chess.name(bad[0][0]), chess.name(bad[0][1]), bad[0][2], "diagonal neighbours are not seen" if abs(bad[0][0][0] - bad[0][1][0]) == 1 and abs(bad[0][0][1] - bad[0][1][1]) == 1 else "see pair")))
+
+
+def r2_5(ctx):
+    """Generator king cache: a king move stores its destination in the mover's cached king square
+    before the legality gate; castling stores the oracle's destination."""
+    from . import successor
+    from wa.cond import refuted_edges
+    an = successor.get(ctx)
+    f = ctx.facts
+    kinds = f.enum_variant_by_discr("board::PieceKind")
+    colours = f.enum_variant_by_discr("board::PieceColor")
+    n = 0
+    for site in an.sites:
+        b, ex, L = site.b, site.ex, site.L
+        mp = [(loc, ev) for loc, evs in site.events.items() for ev in evs if ev[0] == "call" and ev[1] == successor.MOVE_PIECE and ev[2] == 0]
+        writes = {}
+        for loc, evs in site.events.items():
+            for ev in evs:
+                if ev[0] == "write" and ev[1][0].endswith("_king_location"):
+                    writes.setdefault(ev[1][0], []).append((loc, ev[2]))
+        if len(mp) == 1 and site.gate_edges:
+            pp = [i for i in range(1, b.arg_count + 1) if b.local_ty(i) == "board::Piece"]
+            if len(pp) != 1:
+                continue
+            to = strip_refs(ex.call_args(mp[0][0][0])[2])
+            kind_e, col_e = ("field", ("arg", pp[0]), "kind"), ("field", ("arg", pp[0]), "color")
+            gates = {bb for (bb, tg) in site.gate_edges}
+            if enum_value_on_trace(b, ex, site.bb, kind_e, kinds) <= {"Pawn"}:
+                continue   # en-passant successor: the mover is a pawn on this trace
+            for colour in ("White", "Black"):
+                field = "%s_king_location" % colour.lower()
+                ref = refuted_edges(b, ex, {kind_e: ("eq", "King"), col_e: ("eq", colour)}, {kind_e: kinds, col_e: colours})
+                wr = {loc[0] for loc, v in writes.get(field, []) if strip_refs(v) == to}
+                reach = any(site.bb != g and b.reaches(site.bb, g, removed_nodes=wr, removed_edges=ref) for g in gates)
+                n += 1
+                ctx.ob("%s:king(%s):cache-before-gate" % (site.name, colour), not reach, b.where(site.loc),
+                       "a %s king move reaches the legality test only after %s was set to the destination square%s" % (
+                           colour, field, "" if not reach else ": NOT so — the gate would probe the king's old square"))
+            for field, ws in writes.items():
+                for loc, v in ws:
+                    ctx.ob("%s:%s:value" % (site.name, field), strip_refs(v) == to, b.where(loc), "cached king square is written with the move's destination")
+        elif len(mp) == 2:
+            # castling: constant destination per the oracle, and the king is moved from the parent's square to it
+            for field, ws in writes.items():
+                for loc, v in ws:
+                    v = strip_refs(v)
+                    ok = v[0] == "agg" and all(x[0] == "const" for x in v[3])
+                    dest = (v[3][0][1], v[3][1][1]) if ok else None
+                    colour = "White" if field.startswith("white") else "Black"
+                    okd = dest in [chess.sq(c[1]) for r, c in chess.CASTLING.items() if chess.RIGHT_COLOUR[r] == colour]
+                    n += 1
+                    ctx.ob("%s:%s:castling-destination" % (site.name, field), bool(okd), b.where(loc), "castling stores %s as the %s king's square" % (chess.name(dest) if dest and 2 <= dest[0] <= 9 and 2 <= dest[1] <= 9 else dest, colour))
+    ctx.floor("king-cache obligations", n, 6)
